@@ -11,7 +11,9 @@ SYMBOLS = ['"', " ", "=", "[", "]", "a", "é", "lyric", "lyric ", "section", "se
 
 
 def parse_events(lines):
-    return outcome(chart_text(sync=["0 = TS 4", "0 = B 120000", "100 = B 90000", "1000 = B 200000"], events=lines))
+    # the same lines are also placed in an instrument section, where they are foreign (unparsable)
+    return outcome(chart_text(sync=["0 = TS 4", "0 = B 120000", "100 = B 90000", "1000 = B 200000"], events=lines,
+                              tracks={"EasyKeyboard": lines[:4]}))
 
 
 def observe_line(cid, line):
